@@ -636,7 +636,7 @@ func opSQLExec(w *World, op Op) Obs {
 }
 
 func init() {
-	register("sql_exec", opSQLExec)
+	// "sql_exec" is registered once, in c12.go: with a "store" field it is opSQLExec (this file), without it a write to the shared database
 	register("role_create_cold", opRoleCreateCold)
 	register("hold_run", opHoldRun)
 	register("hook_all", opHookAll)
